@@ -455,12 +455,15 @@ def run_job(job):
         subdirs = [d for d in dirs if d and d not in ignored and not any(p in ignored for p in prefixes(d))]
         ignored_dirs = [d for d in dirs if d and (d in ignored or any(p in ignored for p in prefixes(d)))]
         for qi in range(job["queries"]):
-            spelling = rng.choice(["dot", "rel-outside", "abs", "subdir", "subdir-abs", "rel-inside", "ignored-subdir"])
+            spelling = rng.choice(["dot", "rel-outside", "abs", "subdir", "subdir-abs", "rel-inside", "ignored-subdir", "rx-root"])
             sub = ""
             if spelling == "dot":
                 cwd, frm = repo, "."
             elif spelling == "rel-outside":
                 cwd, frm = w, "repo"
+            elif spelling == "rx-root":
+                # the root written as a pattern (`regexp` / `rx` root option): the ignore options belong to the directories it stands for
+                cwd, frm = w, rng.choice(["'rep[o]' rx", "'r.*o' regexp", "'rep?o*' rx"])
             elif spelling == "abs":
                 cwd, frm = w, repo
             elif spelling == "ignored-subdir":
